@@ -484,3 +484,95 @@ def _copy_types(db, chk):
     chk.ob(rule, "copy type = the operation's own type prefix (every direction its own series), 'Memset' for memsets, 'Memcpy Unknown' for anything else", verdict, ut.loc(fn),
            found={k: v for k, v in got.items() if v != cases[k]} or "all representative names agree", accepted=cases,
            why="a table of four known types reports peer-to-peer and host-to-host copies as one 'Memcpy Unknown' series: their bandwidths are added up under a wrong key")
+
+
+# ------------------------------------------------------------------------------------------ thorough tier: the templates themselves
+COUNTER_SPEC = '''
+import pandas as pd
+
+def queue_two_key(pairs):
+    """the template of C14.R1/R2 (form 1): +1 at every launch, -1 at the start of its activity, sorted by (ts, marker descending), cumulative sum"""
+    df = pd.concat([pd.DataFrame({"ts": [l for l, _ in pairs], "queue": 1}), pd.DataFrame({"ts": [k for _, k in pairs], "queue": -1})], ignore_index=True)
+    df = df.sort_values(by=["ts", "queue"], ascending=[True, False])
+    df["queue_length"] = df["queue"].cumsum()
+    return list(zip(df["ts"], df["queue_length"]))
+
+def queue_stable_concat(pairs):
+    """form 2: a stable sort by ts alone over concat([launches, activities])"""
+    df = pd.concat([pd.DataFrame({"ts": [l for l, _ in pairs], "queue": 1}), pd.DataFrame({"ts": [k for _, k in pairs], "queue": -1})], ignore_index=True)
+    df = df.sort_values(by="ts", kind="stable")
+    df["queue_length"] = df["queue"].cumsum()
+    return list(zip(df["ts"], df["queue_length"]))
+
+def queue_activity_first(pairs):
+    """the neighbouring WRONG template: activities in front of the launches at equal timestamps"""
+    df = pd.concat([pd.DataFrame({"ts": [k for _, k in pairs], "queue": -1}), pd.DataFrame({"ts": [l for l, _ in pairs], "queue": 1})], ignore_index=True)
+    df = df.sort_values(by="ts", kind="stable")
+    df["queue_length"] = df["queue"].cumsum()
+    return list(zip(df["ts"], df["queue_length"]))
+
+def bandwidth(copies, wrong=None):
+    """the template of C14.R3: a copy of zero duration lasts 1, +bw at its start, -bw at its end (ts + dur), rows sorted by ts, cumulative sum"""
+    df = pd.DataFrame({"ts": [t for t, _, _ in copies], "dur": [d for _, d, _ in copies], "bw": [b for _, _, b in copies]})
+    if wrong != "no-fixup":
+        df.loc[df["dur"] == 0, "dur"] = 1
+    end = df.copy()
+    end["ts"] = df["ts"] + df["dur"]
+    end["bw"] = -df["bw"] if wrong != "sign" else df["bw"]
+    out = pd.concat([df, end], ignore_index=True).sort_values(by="ts", kind="stable")
+    out["v"] = out["bw"].cumsum()
+    return list(zip(out["ts"], out["v"]))
+'''
+
+
+def thorough(db, chk) -> None:
+    """Validate the reference counter sweeps (COUNTER_SPEC, the checker's own pandas source - not repository code) under the installed pandas against brute-force
+    step functions on every small family of (launch, activity start) pairs / memory copies."""
+    import itertools
+    ns: dict = {}
+    exec(compile(COUNTER_SPEC, "<C14 reference sweeps>", "exec"), ns)
+    pts = range(0, 4)
+    pair = [(l, k) for l in pts for k in pts if l <= k]          # an activity starts no earlier than its launch call
+    fams = [f for n_ in (1, 2, 3) for f in itertools.product(pair, repeat=n_)]
+    n = bad = neg_wrong = 0
+    first = None
+    for fam in fams:
+        want_at = lambda t: sum(1 for l, _ in fam if l <= t) - sum(1 for _, k in fam if k <= t)
+        for fname in ("queue_two_key", "queue_stable_concat"):
+            rows = ns[fname](list(fam))
+            n += 1
+            last = {}
+            for t, v in rows:
+                last[t] = v
+            ok = len(rows) == 2 * len(fam) and all(v >= 0 for _, v in rows) and rows[-1][1] == 0 and all(last[t] == want_at(t) for t in last) and [t for t, _ in rows] == sorted(t for t, _ in rows)
+            if not ok:
+                bad += 1
+                first = first or (fname, fam, rows)
+        if any(v < 0 for _, v in ns["queue_activity_first"](list(fam))):
+            neg_wrong += 1
+    chk.ob("C14.T1-reference-validated", f"reference queue sweeps (two-key sort; stable sort over launches-first concat) == launches so far - activities started so far after the last row of every instant, never negative, ending at 0, on all {n} (family, form) cases (<= 3 pairs, instants 0..3, ties included)",
+           bad == 0, "sa/props/c14.py:COUNTER_SPEC", found=f"{bad} disagreeing" + (f", first {first}" if first else ""), accepted="0 disagreeing",
+           why="the template the code is compared with must itself be the step function, also when a launch and an activity share an instant")
+    chk.ob("C14.T1-reference-validated", "the oracle rejects the activity-first tie order (some row negative)", neg_wrong > 0, "sa/props/c14.py:COUNTER_SPEC", found=f"{neg_wrong} families with a negative row", accepted="> 0")
+    cp = [(t, d, b) for t in range(0, 3) for d in range(0, 3) for b in (1, 2)]
+    fams2 = [f for n_ in (1, 2) for f in itertools.product(cp, repeat=n_)]
+    n2 = bad2 = 0
+    rej = {"sign": 0, "no-fixup": 0}
+    for fam in fams2:
+        eff = [(t, d or 1, b) for t, d, b in fam]
+        want_at = lambda t: sum(b for s, d, b in eff if s <= t < s + d)
+        def good(rows):
+            last = {}
+            for t, v in rows:
+                last[t] = v
+            return len(rows) == 2 * len(fam) and all(last[t] == want_at(t) for t in last) and rows[-1][1] == 0
+        n2 += 1
+        if not good(ns["bandwidth"](list(fam))):
+            bad2 += 1
+            first = first or ("bandwidth", fam)
+        for w in rej:
+            rej[w] += not good(ns["bandwidth"](list(fam), wrong=w))
+    chk.ob("C14.T1-reference-validated", f"reference bandwidth sweep == sum of the bandwidths of the copies in flight (zero-length copies last 1) after the last row of every instant, ending at 0, on all {n2} families of <= 2 copies",
+           bad2 == 0, "sa/props/c14.py:COUNTER_SPEC", found=f"{bad2} disagreeing", accepted="0 disagreeing")
+    chk.ob("C14.T1-reference-validated", "the oracle rejects the neighbouring bandwidth templates (unsigned end step, no zero-duration fix-up)", all(v > 0 for v in rej.values()), "sa/props/c14.py:COUNTER_SPEC", found=rej, accepted="each > 0")
+    chk.analysed_add("template_cases", f"queue:{n} bandwidth:{n2}")
